@@ -270,31 +270,42 @@ def store_guards(chk, F):
         chk.decide(has(lambda g: g[0] == "bool" and g[1][1][-1:] == ("save_previous_result",) and g[2] is True),
                    "ans-store-guards", fk, "flag-on", where, "store only when save_previous_result is true",
                    "previous_result is stored without testing save_previous_result == true (guards: %s)" % gtxt)
-        # 3. reply kind
-        kinds = [g[3] for g in guards if g[0] == "variant" and g[2].endswith("output::reply::QueryReply")
-                 and any(c.endswith("Context::eval_query") for c in ap_calls(g[1]))]
-        chk.decide(bool(kinds) and all(k in ("Number", "Duration") for k in kinds),
-                   "ans-store-guards", fk, "reply-is-number", where, "store only for the numeric replies QueryReply::Number / ::Duration",
-                   "previous_result is stored for replies other than the numeric ones (guards: %s)" % gtxt)
-        stored_kinds.setdefault(fk, set()).update(kinds)
-        # 4. raw value
-        chk.decide(has(lambda g: g[0] == "variant" and g[1][1][-1:] == ("raw_value",) and g[3] == "Some"),
-                   "ans-store-guards", fk, "raw-some", where, "store only when raw_value is Some",
-                   "no Some test on raw_value (guards: %s)" % gtxt)
-        # 5. the stored value
+        # 3.-5. what is stored, decided from where the stored value can come from (however the choice is written: nested
+        # `if let`, a match, a private helper that returns Option<&Number>): it is built as Some(..) - never a None that would
+        # erase `ans` - and everything that can be inside is the raw_value of this evaluation's reply in one of the two numeric
+        # reply kinds
+        import prov
         st = fn.blocks[bb]["stmts"][j]
-        ap = fn.apath(st["rv"]["a"]) if st["rv"]["k"] == "use" else None
-        okv = False
-        txt = ap_str(ap) if ap else str(st["rv"])[:80]
-        if ap and ap[0][0] == "agg" and ap[0][1].endswith("Option::Some"):
-            inner = ap[0][2][0]
-            if inner[0][0] == "call" and inner[0][1].endswith("Clone>::clone"):
-                src = inner[0][2][0]
-                okv = src[1][-3:] == ("raw_value", "as Some", "0") and any(c.endswith("Context::eval_query") for c in ap_calls(src))
-        chk.decide(okv, "ans-store-guards", fk, "value-is-reply-raw", where,
-                   "stores Some(clone of this reply's raw_value)", "stored value is %s, not the reply's raw_value" % txt[:200])
-        table[fk] = sorted(set((g[0], g[1][1][-1:], str(g[2:]) if g[0] != "variant" else {"Ok": "success", "Continue": "success"}.get(g[3], g[3])) for g in guards))
-    chk.floor("ans-store-guards", 15, "(three updaters x five obligations)")
+        rv = st["rv"]
+        ap = fn.apath(rv["a"]) if rv["k"] == "use" else None
+        is_some = bool(ap and ap[0][0] == "agg" and ap[0][1].endswith("Option::Some")) or (rv["k"] == "agg" and rv.get("variant") == "Some")
+        ops = [rv["a"]] if rv["k"] == "use" else rv.get("ops", [])
+        kinds, bad = [], []
+        for o in ops:
+            for kind_, v in prov.sources(F, fn, o):
+                if kind_ == "value" and v[0][0] == "call" and any(c.endswith("Context::eval_query") for c in ap_calls(v)):
+                    projs = [p_ for p_ in v[1] if p_ not in ("pointer",)]
+                    names = [p_[3:] for p_ in projs if isinstance(p_, str) and p_.startswith("as ")]
+                    fields = [p_ for p_ in projs if not (isinstance(p_, str) and p_.startswith("as ")) and not str(p_).isdigit()]
+                    if len(names) == 1 and names[0] in ("Number", "Duration") and fields[-1:] == ["raw_value"] and fields[:-1] in ([], ["raw"]):
+                        kinds.append(names[0])
+                        continue
+                    bad.append(ap_str(v)[-90:])
+                else:
+                    bad.append("%s %s" % (kind_, (ap_str(v)[-80:] if kind_ == "value" else str(v)[:80])))
+        chk.decide(bool(kinds) and all(k in ("Number", "Duration") for k in kinds) and not bad,
+                   "ans-store-guards", fk, "reply-is-number", where, "what is stored comes from the numeric replies QueryReply::Number / ::Duration only",
+                   "previous_result is stored for replies other than the numeric ones (sources: %s; guards: %s)" % (bad, gtxt))
+        stored_kinds.setdefault(fk, set()).update(kinds)
+        chk.decide(is_some, "ans-store-guards", fk, "raw-some", where, "the store is Some(..) of a raw_value that is there",
+                   "previous_result is assigned something that is not built as Some(..): a reply without a raw value erases `ans` (guards: %s)" % gtxt)
+        txt = ap_str(ap) if ap else str(rv)[:80]
+        chk.decide(not bad and bool(kinds), "ans-store-guards", fk, "value-is-reply-raw", where,
+                   "stores Some(clone of this reply's raw_value)", "stored value is %s, not the reply's raw_value (%s)" % (txt[:160], bad))
+        table.setdefault(fk, set()).update(["success" if has(succeeded) else "no-success-guard",
+                                            "flag" if has(lambda g: g[0] == "bool" and g[1][1][-1:] == ("save_previous_result",) and g[2] is True) else "no-flag-guard"])
+        table[fk].update(kinds)
+    chk.floor("ans-store-guards", 12, "(three updaters x obligations; an updater may store both kinds in one statement)")
     # the numeric result of a plain expression is replied as Number, or - when it is a time - as Duration (the automatic
     # breakdown): both are "the most recent numeric result" and every updater must store both
     for fk, ks in sorted(stored_kinds.items()):
@@ -303,6 +314,7 @@ def store_guards(chk, F):
                    "the updater stores ans only for %s: a plain expression whose value is a time is answered as QueryReply::Duration and never "
                    "reaches `ans` (`2 m`, `10 s`, `ans` answers 2 meter)" % sorted(ks))
     # sibling agreement
+    table = {k: sorted(v) for k, v in table.items()}
     vals = list(table.values())
     if vals:
         base = vals[0]
